@@ -254,6 +254,13 @@ def descriptions(tier):
                 if ci != 3:
                     continue
                 pool = [(kd, k) for kd, k in opts if kd in ('bridge', 'pm_in', 'pm_out')]
+            elif tier != 'quick' and size == 4:
+                # thorough: four services (48 creation orders) on the two-site two-node configuration, interacting kinds only
+                if ci != 3:
+                    continue
+                pool = [(kd, k) for kd, k in opts if kd in ('bridge', 'pm_in', 'pm_out', 'v4ext')]
+            elif tier != 'quick' and size == 3 and len(cfg) == 3:
+                pool = [(kd, k) for kd, k in opts if kd in ('bridge', 'pm_in', 'pm_out', 'v4ext')]
             else:
                 pool = opts
             for ms in itertools.combinations_with_replacement(pool, size):
